@@ -1086,6 +1086,36 @@ func c03Numbers(p *Program, r *Report, g *LALR) {
 		}
 	}
 	r.Floor("C03.R4", nConv, 5)
+	// the value of a literal is parsed, never computed: no arithmetic on 64-bit numbers in the conversion function. A literal
+	// whose magnitude is parsed and then negated cannot denote MinInt64 (-0x8000000000000000), and a scaled or shifted value
+	// loses digits that strconv would have kept or refused
+	{
+		bad := ""
+		for _, b := range toNum.Blocks {
+			for _, in := range b.Instrs {
+				var t types.Type
+				switch x := in.(type) {
+				case *ssa.UnOp:
+					if x.Op == token.SUB {
+						t = x.Type()
+					}
+				case *ssa.BinOp:
+					switch x.Op {
+					case token.ADD, token.SUB, token.MUL, token.QUO, token.SHL, token.SHR:
+						t = x.Type()
+					}
+				}
+				if t == nil {
+					continue
+				}
+				if bt, ok := t.Underlying().(*types.Basic); ok && (bt.Kind() == types.Int64 || bt.Kind() == types.Float64 || bt.Kind() == types.Uint64) {
+					bad = p.Pos(instrPos(in))
+				}
+			}
+		}
+		r.Check(bad == "", "C03.R4", funcName(toNum)+"|value parsed, not computed", p.Pos(toNum.Pos()), "no arithmetic on 64-bit numbers in the literal conversion",
+			"the literal conversion computes on a parsed number at "+bad+" (negates, scales or shifts it): the literal's range is no longer that of int64 / float64 - a magnitude parsed first and negated afterwards cannot denote MinInt64")
+	}
 	_ = site
 	// the literal actions report the error
 	nAct := 0
